@@ -6,6 +6,9 @@ C34 driver.  One line per *phase* of a generated RMA program:
 
   ph <kind> <n> <w> <du> M <n*w ints: windows before the phase> (B <origin> | <call>)*  =>  W <n*w ints> (R <id> <k> <k ints>)* (E <id>)*
 
+<w>: the window size in ints: one number (all ranks the same) or `w_0,..,w_{n-1}` (every rank exposes a window of its own
+size; then the M and W sections have n * max_r w_r ints, each window padded with 0); the range check of a call uses the
+size of the call's *target* (`Call.execW`).
 <du>: the displacement unit every rank gave to MPI_Win_create: one number (all ranks the same) or `du_0,du_1,..,du_{n-1}`
 (one per rank); the displacement of a call is converted with the unit of the call's *target* (`dispIndexAt`).
 
@@ -102,8 +105,10 @@ def sortNat (l : List Nat) : List Nat := (l.toArray.qsort (· < ·)).toList
 def judge (q a : List String) : Verdict :=
   match q with
   | "ph" :: kind :: n :: w :: du :: "M" :: rest =>
-    match n.toNat?, w.toNat?, (n.toNat?).bind (fun n => parseDus n du) with
-    | some n, some w, some dus =>
+    match n.toNat?, (n.toNat?).bind (fun n => parseDus n w), (n.toNat?).bind (fun n => parseDus n du) with
+    | some n, some wl, some dus =>
+      let w := wl.foldl max 0                               -- width of the M / W sections
+      let ws : WSizes := fun r => wl.getD r 0               -- size of every rank's window
       match takeInts (n * w) rest with
       | none => .bad
       | some (m0l, rest) =>
@@ -118,7 +123,7 @@ def judge (q a : List String) : Verdict :=
               let blocks := p.blocks.reverse.map (fun (o, cs) => (o, cs.reverse))
               let allCalls := blocks.flatMap (fun (_, cs) => cs)
               let m0 := memOfWins (chunk w n m0l)
-              let errModel := sortNat ((allCalls.filter (fun (_, c) => kind == "N" || c.rangeErr w)).map (·.1))
+              let errModel := sortNat ((allCalls.filter (fun (_, c) => kind == "N" || c.rangeErr (ws c.target))).map (·.1))
               let errImpl := sortNat ans.errs
               if errModel != errImpl then .disagree s!"errors={errModel}"
               else
@@ -131,10 +136,10 @@ def judge (q a : List String) : Verdict :=
                   let ph : Phase := (List.range n).map (fun o =>
                     (blocks.filter (fun (o', _) => o' == o)).map (fun (_, cs) => cs.map (·.2)))
                   if phaseCommutes ph then
-                    let mc := canonical w m0 ph
+                    let mc := canonical ws m0 ph
                     if matchesObs n w mc obs then .ok
                     else .monfail s!"unique-result expected W {winsOfMem n w mc} R {results.map (fun (id, vals) => (id, (List.range vals.length).map (fun k => mc (.res id k))))}"
-                  else if allowed n w m0 ph obs then .ok
+                  else if allowed n w ws m0 ph obs then .ok
                   else .monfail s!"no serialisation of the {blocks.length} blocks gives this observation ({(merges ph).length} orders tried)"
         | _, _ => .bad
     | _, _, _ => .bad
